@@ -4,7 +4,7 @@
     [sreach] strong reachability.  [order_complete h]: the heap walk meets every object.  The premise
     [gc ... = Some _] says the model's fuel sufficed (None = out of fuel). *)
 From Coq Require Import ZArith List Bool PArith FMapPositive.
-From ChibiV Require Import C16.Model C16.Spec C16.Proofs C16.GcProofs C16.FdProofs C16.FdSafety C16.History C16.HistProofs C16.FdOnce C16.Fuel C16.Examples C16.LayoutCheck C16.ScanOrder Gen.C16_Layout.
+From ChibiV Require Import C16.Model C16.Spec C16.Proofs C16.GcProofs C16.FdProofs C16.FdSafety C16.History C16.HistProofs C16.FdOnce C16.Fuel C16.Examples C16.LayoutCheck C16.ScanOrder C16.Gate C16.GateProofs Gen.C16_Layout.
 Import ListNotations.
 
 (** the mark phase + ephemeron fixpoint mark exactly the SPEC's live set *)
@@ -257,3 +257,73 @@ Print Assumptions scan_below_pointer_optimisation_refuted.
 Theorem close_file_descriptor_marks_fileno_closed : close_fd_marks_fileno_closed = 1%Z.
 Proof. exact close_fd_as_modelled_l. Qed.
 Print Assumptions close_file_descriptor_marks_fileno_closed.
+
+(* ------------------------------------------------------------------ round 3 *)
+(** the gate of the weak pass.  [run_gated]: the history machine whose collector has the early return of
+    sexp_reset_weak_references (flag SEXP_G_WEAK_OBJECTS_PRESENT: off in a fresh context, switched on by every
+    make-ephemeron, never off again).  For EVERY history it runs in lock step with [run], the machine whose weak pass is
+    always on — about which theorems 1-27 speak — and the flag is on exactly when make-ephemeron has been called.
+    What must not change: make-ephemeron sets the flag whatever its key and value are (theorems 31, 32). *)
+Theorem history_gate_transparent : forall ops n f,
+  run_gated ops (false, init n (S f)) = option_map (fun st => (existsb is_eph ops, st)) (run ops (init n (S f))).
+Proof. exact history_gate_transparent_l. Qed.
+Print Assumptions history_gate_transparent.
+
+(** the reason: skipping the weak pass is unobservable on a heap without weak objects, and a history that has not called
+    make-ephemeron has none *)
+Theorem gate_off_sound : forall fuel passes h roots log, no_weak (objs h) ->
+  gc_gated false fuel (S passes) h roots log = gc fuel (S passes) h roots log.
+Proof. exact gate_off_sound_l. Qed.
+Print Assumptions gate_off_sound.
+
+Theorem history_no_weak_object_before_first_ephemeron : forall ops n f st,
+  run ops (init n f) = Some st -> existsb is_eph ops = false -> no_weak (objs (hp st)).
+Proof. exact history_no_weak_object_before_first_ephemeron_l. Qed.
+Print Assumptions history_no_weak_object_before_first_ephemeron.
+
+(** switching the weak pass on only when the VALUE is a heap object is wrong: the first ephemeron of a context with a heap key
+    and an immediate value, key dropped, collection: the live ephemeron keeps an unbroken pointer to a swept key, where the
+    collector as modelled reports it broken with key and value #f *)
+Theorem gate_on_pointer_value_refuted :
+  (exists st, run_gated_if (fun _ v => is_ptr v) ops_imm_value (false, init 3 100) = Some (false, st) /\ dangling_key st) /\
+    (exists st e o, run ops_imm_value (init 3 100) = Some st /\ obs st = [e] /\ PM.find e (objs (hp st)) = Some o /\
+    weak o = [Imm] /\ extra o = [Imm] /\ brokenp o = true).
+Proof. exact gate_on_pointer_value_refuted_l. Qed.
+Print Assumptions gate_on_pointer_value_refuted.
+
+(** ... and so is switching it on only when the KEY is a heap object: an ephemeron with an immediate key retains its value
+    (theorem 6, [In Imm (weak o)]), which needs sexp_mark_weak_extras, which lives behind the gate *)
+Theorem gate_on_pointer_key_refuted :
+  (exists st, run_gated_if (fun k _ => is_ptr k) ops_imm_key (false, init 3 100) = Some (false, st) /\ dangling_value st) /\
+    (exists st e o v, run ops_imm_key (init 3 100) = Some st /\ obs st = [e] /\ PM.find e (objs (hp st)) = Some o /\
+    extra o = [Ptr v] /\ isobj (objs (hp st)) v).
+Proof. exact gate_on_pointer_key_refuted_l. Qed.
+Print Assumptions gate_on_pointer_key_refuted.
+
+(** an ephemeron whose key is an immediate (fixnum, boolean, character, '()) is never broken and keeps its value *)
+Theorem immediate_key_never_broken : forall fuel passes h roots log h' log' m e o,
+  order_complete h -> gc fuel passes h roots log = Some (h', log', m) ->
+  live (objs h) roots e -> PM.find e (objs h) = Some o -> weak o = [Imm] ->
+  exists o', PM.find e (objs h') = Some o' /\ weak o' = [Imm] /\ extra o' = extra o /\ brokenp o' = brokenp o.
+Proof. exact immediate_key_never_broken_l. Qed.
+Print Assumptions immediate_key_never_broken.
+
+(** (G) sexp_finalize_fileno, sexp_finalize_port, the walk of sexp_finalize and the reset walk of
+    sexp_reset_weak_references read as Model.v mirrors them *)
+Theorem finaliser_skeletons_as_modelled :
+  finalize_fileno_as_modelled = 1%Z /\ finalize_port_as_modelled = 1%Z /\ finalize_walk_as_modelled = 1%Z /\
+    weak_reset_walk_as_modelled = 1%Z.
+Proof. exact finaliser_skeletons_as_modelled_l. Qed.
+Print Assumptions finaliser_skeletons_as_modelled.
+
+(** (G) every mention of the gate in the sources: initialised false, set by make-ephemeron unconditionally, tested by the
+    weak pass, declared; make-ephemeron is the only allocator of weak objects *)
+Theorem weak_gate_as_modelled :
+  weak_gate_sites = [1; 2; 3; 4]%Z /\ make_ephemeron_sets_gate = 1%Z /\ ephemeron_alloc_sites = 1%Z.
+Proof. exact weak_gate_as_modelled_l. Qed.
+Print Assumptions weak_gate_as_modelled.
+
+(** (G) collect-and-retry of open-input-file / open-output-file: EMFILE is tested directly after the failed fopen *)
+Theorem open_retry_skeleton_as_modelled : open_retry_as_modelled = [1; 1; 1]%Z.
+Proof. exact open_retry_as_modelled_l. Qed.
+Print Assumptions open_retry_skeleton_as_modelled.
